@@ -153,6 +153,9 @@ def d2(cx: Cx, ob: Ob) -> None:
                 ob.violate(gt.qualname, where(gt, line), "expanded term definitions are not written with \"@prefix\": true; from_jsonld ignores them", detail="prefix-flag")
             if items.get("@id") != ("attr", rec, "uri_prefix"):
                 ob.violate(gt.qualname, where(gt, line), f"'@id' is `{show(items.get('@id'))[:40] if items.get('@id') else 'missing'}`, not the record's uri_prefix", detail="id-role")
+    from .c13 import check_jsonld_reader
+
+    check_jsonld_reader(cx, ob)
     fn = cx.fn(f"{API}._get_jsonld_context", ob.id)
     s = cx.summary(fn, ob.id)
     conv = ("param", fn.params[0].name)
